@@ -14,6 +14,11 @@ at rational w spread over all time constants, against the exact phasor solution 
 phasor network is written by the harness, not by the repository's transformer.  DC gain vs
 `DCSolution`; state dimension; states = capacitor voltages, inductor currents; every source
 is an input.  Domain (non-degenerate) decided exactly on the Spec side.
+Wrapper / value-variation stream: the PUBLIC `Circuit.state_space_model.state_space_model(circuit,
+potential_nodes, voltage_ids, current_ids)` with all outputs requested is checked against the
+phasor solution too — on a description, then in the same process on the same description with
+every R, L, C perturbed (same ids, nodes, order), then on the first again (canon
+`op: state_space_wrapper, same_ids_different_values`); its A, B against the nodal model's.
 """
 from __future__ import annotations
 import numpy as np
@@ -46,8 +51,10 @@ ASSUMPTIONS = [
 UNKNOWN_NODE = '?no-such-node?'
 UNKNOWN_ID = '?no-such-element?'
 
+EXTRA_CANON = {}      # set by the value-variation stream: same ids, different values, same process
+
 def canon(desc, symptom, **kw):
-    return dict(op='state_space', symptom=symptom, **gs.facts(desc), **kw)
+    return dict(op='state_space', symptom=symptom, **gs.facts(desc), **EXTRA_CANON, **kw)
 
 def cond_of(pair):
     a, r = pair
@@ -263,6 +270,74 @@ def oracle(ctx, out, desc, im) -> bool:
             out.skip('dc_singular')
     return True
 
+def wrapper_oracle(ctx, out, desc, repeated, replay_info) -> bool:
+    """the PUBLIC circuit-level wrapper `state_space_model(circuit, potential_nodes, voltage_ids,
+    current_ids)` with every output requested: transfer function / DC gain of the returned
+    (A, B, C, D) against the exact phasor solution of this very description; A, B against the
+    nodal model's.  `repeated` marks calls made after another circuit with the same ids / nodes /
+    order but different values went through the wrapper in this process."""
+    from CircuitCalculator.Circuit.state_space_model import state_space_model
+    drv = ctx.driver
+    inp = gs.pretty(desc)
+    labels, ids = gs.labels_of(desc), [c['id'] for c in desc['comps']]
+    wcanon = lambda symptom, **kw: dict(op='state_space_wrapper', symptom=symptom, same_ids_different_values=repeated, **kw)
+    out.evaluations += 1
+    out.count('wrapper_calls' + (':repeated' if repeated else ''))
+    try:
+        im = gs.impl_model(desc)                       # nodal model of this description (source order, reference A, B)
+        sm = state_space_model(im.circuit, potential_nodes=labels, voltage_ids=ids, current_ids=ids)
+    except Exception as e:
+        out.spec_fail(wcanon('raises', exc=gs.gen_tag(e)), f'state_space_model(circuit, …) raises {type(e).__name__}: {e}', inp,
+                      desc=desc, **replay_info); return False
+    A, B, C, D = (np.asarray(getattr(sm, k), dtype=float) for k in 'ABCD')
+    sources = list(im.ssm.sources)
+    ns = sum(1 for c in desc['comps'] if c['kind'] in gs.REACTIVE)
+    keys = [('pot', n) for n in labels] + [('v', i) for i in ids] + [('i', i) for i in ids]
+    if A.shape != (ns, ns) or B.shape != (ns, len(sources)) or C.shape != (len(keys), ns) or D.shape != (len(keys), len(sources)) \
+       or not all(np.all(np.isfinite(M)) for M in (A, B, C, D)):
+        out.spec_fail(wcanon('dims'), f'wrapper returns shapes A{A.shape} B{B.shape} C{C.shape} D{D.shape}', inp, desc=desc, **replay_info)
+        return False
+    if max([cond_of(p) for p in im.inverses] + [1.0]) > 1e6:
+        out.skip('ill_conditioned'); return True
+    rows = [(C[k], D[k]) for k in range(len(keys))]
+    ws = gs.frequencies(A, True)
+    ws = [ws[0]] + ws[len(ws) // 2:len(ws) // 2 + 1] if len(ws) > 1 else ws
+    for w in ws:
+        if np.linalg.cond(1j * float(w) * np.eye(ns) - A) > 1e6:
+            out.skip('near_resonance'); continue
+        H = transfer_rows(drv, A, B, rows, w)
+        if H is None:
+            out.skip('resolvent_singular'); continue
+        for k, src in enumerate(sources):
+            sol = gs.spec_solve(drv, gs.phasor_net(desc, w, active=src))
+            if not sol['wellposed']:
+                out.skip('phasor_illposed_at_w'); continue
+            exp = gs.expected_outputs(desc, sol)
+            scale = max([abs(v) for v in exp.values()] + [1.0])
+            for key, h in zip(keys, H):
+                if not core.close(h[k], exp[key], scale, 1e-9):
+                    what = {'pot': 'potential of node', 'v': 'voltage of', 'i': 'current of'}[key[0]]
+                    out.spec_fail(wcanon('dc_gain' if w == 0 else 'transfer_mismatch', output=key[0]),
+                                  f'public wrapper state_space_model(circuit, …){" (called after a circuit with the same ids but other values)" if repeated else ""}: '
+                                  f'{what} {key[1]!r} in response to {src!r} at w={w}: C(jw−A)⁻¹B+D gives {h[k]}, the phasor solution of '
+                                  f'THIS circuit is {exp[key]}', inp, impl=dict(A=A.tolist(), B=B.tolist(), value=h[k]),
+                                  spec=dict(w=str(w), source=src, expected=exp[key]), desc=desc, **replay_info)
+                    return False
+            out.count('wrapper_transfer_points')
+    # the wrapper hands out the nodal model's A, B
+    if not (np.allclose(A, np.asarray(im.ssm.A), rtol=1e-12, atol=0) and np.allclose(B, np.asarray(im.ssm.B), rtol=1e-12, atol=0)):
+        out.spec_fail(wcanon('wrapper_matrices'), 'A, B of state_space_model(circuit, …) differ from nodal_state_space_model of the same circuit',
+                      inp, impl=dict(A=A.tolist(), A_nodal=np.asarray(im.ssm.A).tolist()), desc=desc, **replay_info)
+        return False
+    return True
+
+def wrapper_sequence(ctx, out, desc, desc2):
+    """same process: wrapper on a description, on the same description with other R, L, C values
+    (same ids, nodes, order), and on the first one again"""
+    info = dict(wrapper_sequence=dict(first=desc, second=desc2))
+    return (wrapper_oracle(ctx, out, desc, False, info) and wrapper_oracle(ctx, out, desc2, True, info)
+            and wrapper_oracle(ctx, out, desc, True, info))
+
 def check_case(ctx, out, desc, origin='random'):
     drv = ctx.driver
     out.evaluations += 1
@@ -389,6 +464,9 @@ def run(ctx, out):
                 'both well-posed, decided exactly); distinct by (node count, kind multiset, names-interleave, inductor-order)')
     for desc in CORPUS:
         check_case(ctx, out, desc, 'corpus')
+    vr = ctx.rng('vary-corpus')
+    for desc in (CORPUS[0], CORPUS[1], CORPUS[3], CORPUS[5]):
+        wrapper_sequence(ctx, out, desc, gs.vary_values(vr, desc))
     container_cases(ctx, out)
     malformed_cases(ctx, out)
     rng = ctx.rng('random')
@@ -403,6 +481,11 @@ def run(ctx, out):
             if ok: break
             out.count('rejected_degenerate:' + why)
         check_case(ctx, out, desc)
+        # wrapper / value-variation stream: same ids, nodes and order, other R, L, C, same process
+        if rng.random() < (0.5 if ctx.quick else 1.0):
+            d2 = gs.vary_values(rng, desc)
+            wrapper_sequence(ctx, out, desc, d2)
+            gs.run_sequence(out, EXTRA_CANON, [desc, d2, desc], lambda d: check_case(ctx, out, d, 'varied'))
         # every listing order of the reactive elements (thorough), one more order (quick)
         if ctx.quick:
             if gs.facts(desc)['n_reactive'] > 1 and rng.random() < 0.5:
@@ -413,6 +496,13 @@ def run(ctx, out):
                 check_case(ctx, out, d2, 'permuted')
 
 def replay(ctx, out, rp):
+    if rp.get('wrapper_sequence'):
+        ws = rp['wrapper_sequence']
+        wrapper_sequence(ctx, out, ws['first'], ws['second'])
+        return
+    if rp.get('sequence'):
+        gs.run_sequence(out, EXTRA_CANON, rp['sequence'], lambda d: check_case(ctx, out, d, 'replay'))
+        return
     desc = rp.get('desc')
     if desc is None and rp.get('shapes'):
         from CircuitCalculator.SignalProcessing.state_space_model import StateSpaceModel
